@@ -93,11 +93,32 @@ def run(ctx, col: Collector):
             found['DEFAULT'] = set(dh[0][0])
         col.check(comp_ok, 'C03-column', 'render_column:composite-flag', 'the composite flag is the owning table\'s "several pk columns" predicate (False for a detached column)',
                   'render_column does not take the composite-pk flag from model.table._has_composite_pk()', node=fi.node, file=fi.file)
-        d = found.get('DEFAULT')
-        col.check(d == {('not', ('none', f'{m}.default'))}, 'C03-column', 'render_column:DEFAULT-guard',
-                  'DEFAULT is emitted whenever default is not None (0, False and the empty string included)',
-                  f'DEFAULT is emitted under {sorted(map(str, d)) if d else "no recognised test"}; a truthiness test drops the defaults 0, False and \'\'',
-                  node=fi.node, file=fi.file)
+        # DEFAULT may be written in several places (one per kind of default): the emission condition is the disjunction of their guards; guards that differ in
+        # one complementary literal merge (`not None and isinstance(..)` or `not None and not isinstance(..)` = `not None`)
+        gsets = [set(h[0]) for h in dh]
+        merged = True
+        while merged and len(gsets) > 1:
+            merged = False
+            for i_ in range(len(gsets)):
+                for j_ in range(i_ + 1, len(gsets)):
+                    a_, b_ = gsets[i_], gsets[j_]
+                    da, db = a_ - b_, b_ - a_
+                    if len(da) == 1 and len(db) == 1 and _neg(next(iter(da))) == next(iter(db)):
+                        gsets = [g_ for k_, g_ in enumerate(gsets) if k_ not in (i_, j_)] + [a_ & b_]
+                        merged = True
+                        break
+                if merged:
+                    break
+        want_d = {('not', ('none', f'{m}.default'))}
+        d = gsets[0] if len(gsets) == 1 else None
+        if d == want_d:
+            col.ok('C03-column', 'render_column:DEFAULT-guard', 'DEFAULT is emitted whenever default is not None (0, False and the empty string included)', node=fi.node, file=fi.file)
+        elif any(('truthy', f'{m}.default') in g_ for g_ in gsets) or not gsets:
+            col.bad('C03-column', 'render_column:DEFAULT-guard', f'DEFAULT is emitted under {[sorted(map(str, g_)) for g_ in gsets] or "no recognised test"}; a truthiness test drops '
+                    f'the defaults 0, False and \'\'', node=fi.node, file=fi.file)
+        else:
+            col.unk('C03-column', 'render_column:DEFAULT-guard', f'DEFAULT is emitted under {[sorted(map(str, g_)) for g_ in gsets]}; cannot reduce that to "default is not None"',
+                    node=fi.node, file=fi.file)
         # expression defaults are rendered by the expression renderer
         dflt = {f'{m}.default'} | {norm(a.targets[0]) for a in ast.walk(fi.node) if isinstance(a, ast.Assign) and len(a.targets) == 1
                                    and isinstance(a.targets[0], ast.Name) and norm(a.value) == f'{m}.default'}
